@@ -360,6 +360,7 @@ static int parse_item(struct scanner_s *scanner, cif_container_tp *container, UC
 static int parse_loop(struct scanner_s *scanner, cif_container_tp *container);
 static int parse_loop_header(struct scanner_s *scanner, cif_container_tp *container, string_element_tp **name_list_head,
         int *name_countp);
+static int find_name_in_header(string_element_tp *head, string_element_tp *last);
 static int parse_loop_packets(struct scanner_s *scanner, cif_loop_tp *loop, string_element_tp *first_name,
         UChar *names[], int column_count);
 static int parse_list(struct scanner_s *scanner, cif_value_tp **listp);
@@ -1497,6 +1498,42 @@ static int parse_loop(struct scanner_s *scanner, cif_container_tp *container) {
     return result;
 }
 
+/*
+ * Determines whether the data name carried by list element 'last' is equivalent, in the CIF sense, to the name carried
+ * by any of the elements that precede it in the list starting at 'head'.  Returns CIF_OK if it is, CIF_NOSUCH_ITEM if
+ * it is not, or an error code if the question cannot be answered.
+ */
+static int find_name_in_header(string_element_tp *head, string_element_tp *last) {
+    UChar *last_norm;
+    int result = cif_normalize_item_name(last->string, -1, &last_norm, CIF_INVALID_ITEMNAME);
+
+    if (result == CIF_OK) {
+        string_element_tp *element;
+
+        result = CIF_NOSUCH_ITEM;
+        for (element = head; (element != NULL) && (element != last) && (result == CIF_NOSUCH_ITEM);
+                element = element->next) {
+            if (element->string != NULL) {
+                UChar *norm;
+                int norm_result = cif_normalize_item_name(element->string, -1, &norm, CIF_INVALID_ITEMNAME);
+
+                if (norm_result != CIF_OK) {
+                    result = norm_result;
+                } else {
+                    if (u_strcmp(norm, last_norm) == 0) {
+                        result = CIF_OK;
+                    }
+                    free(norm);
+                }
+            }
+        }
+
+        free(last_norm);
+    }
+
+    return result;
+}
+
 static int parse_loop_header(struct scanner_s *scanner, cif_container_tp *container, string_element_tp **name_list_head,
         int *name_countp) {
     string_element_tp **next_namep = name_list_head;  /* a pointer to the pointer to the next data name in the header */
@@ -1524,9 +1561,13 @@ static int parse_loop_header(struct scanner_s *scanner, cif_container_tp *contai
                 u_strncpy((*next_namep)->string, token_value, token_length);
                 (*next_namep)->string[token_length] = 0;
 
-                /* check for data name duplication */
-                switch (result = ((container == NULL) ? CIF_NOSUCH_ITEM
-                            : cif_container_get_item_loop(container, (*next_namep)->string, NULL))) {
+                /* check for data name duplication: against the container, then against the header read so far */
+                result = ((container == NULL) ? CIF_NOSUCH_ITEM
+                        : cif_container_get_item_loop(container, (*next_namep)->string, NULL));
+                if ((result == CIF_NOSUCH_ITEM) && (container != NULL)) {
+                    result = find_name_in_header(*name_list_head, *next_namep);
+                }
+                switch (result) {
                     case CIF_NOSUCH_ITEM:
                         /* the expected case */
                         break;
